@@ -88,6 +88,15 @@ func seal(key, message, context []byte) ([]byte, error) {
 	return out, nil
 }
 
+func wellFormed(sealed []byte) bool {
+	if len(sealed) < Overhead {
+		return false
+	}
+	return binary.LittleEndian.Uint32(sealed[0:]) == algID &&
+		binary.LittleEndian.Uint32(sealed[4:]) == 12 &&
+		binary.LittleEndian.Uint32(sealed[8:]) == 16
+}
+
 func open(key, sealed, context []byte) ([]byte, error) {
 	fail := errors.NewWithCode(errors.Fail, "Secure Cell failed to decrypt")
 	if len(sealed) < Overhead {
@@ -155,6 +164,10 @@ func (sc *SecureCell) Unprotect(protectedData []byte, additionalData []byte, con
 	}
 	if sc.mode != ModeSeal {
 		return nil, errors.NewWithCode(errors.NotSupported, "stand-in: only Seal mode")
+	}
+	if !wellFormed(protectedData) {
+		// Themis fails while computing the output size for malformed input
+		return nil, ErrGetOutputSize
 	}
 	pt, err := open(sc.key, protectedData, context)
 	if err != nil {
